@@ -25,6 +25,9 @@ Families
   S  text with one of the 8 characters \\x0b \\x0c \\x1c \\x1d \\x1e \\x85 U+2028 U+2029 (line boundaries for
      str.splitlines(), but not comment line endings) in the middle of a line of an identifier annotation
      value, a parameter / block / tag description
+  N  mixed-case parameter names and names differing only in case (distinct, kept as written, in order)
+  D  ordinary blocks using a deprecated tag-style annotation (Rename to:, Value:, ...) with no parameter
+     or tag before it and something after it: parsed, not lost, parameters / tags kept, round trip stable
   B  every model built from an identifier menu x <=2 parameters x description menu x <=2 tags,
      under a covering set of layouts (quick) / a larger product (thorough)
 """
@@ -160,6 +163,23 @@ def models_S():
     return out
 
 
+def models_N():
+    """Parameter names are case sensitive C identifiers: mixed-case names and names differing only in
+    case are distinct parameters, kept under the name as written, in order."""
+    out = []
+    name_seqs = [['srcRGBA'], ['A', 'a'], ['a', 'A'], ['userData', 'userdata', 'user_data'], ['X'], ['Self', 'self'],
+                 ['n', 'N', 'nItems'], ['dstX', 'dstY', 'dstx'], ['Data', 'data', 'DATA'], ['isOK', 'ISOK']]
+    anns = [[], [['nullable', None]], [['out', None], ['transfer', ['list', ['full']]]]]
+    for names in name_seqs:
+        for v in range(3):
+            ps = []
+            for i, n in enumerate(names):
+                ps.append({'name': n, 'ann': anns[(i + v) % 3], 'desc': [['the', n, 'value']] if (i + v) % 2 == 0 else []})
+            out.append({'ident': ['symbol', 'foo_bar', None], 'ann': [], 'params': ps,
+                        'desc': SKEL_DESC if v != 1 else None, 'tags': [dict(SKEL_RET)] if v != 2 else []})
+    return out
+
+
 def models_P(tier):
     out = []
     for pos in (B.I, B.P, B.R):
@@ -204,6 +224,8 @@ def layouts_for(family, tier):
             return list(B.all_layouts())
         lays = list(B.all_layouts(['indent', 'eol', 'ann', 'colon', 'gap']))
         return lays + [l for l in B.one_dim_layouts() if l not in lays]
+    if family == 'N':
+        return list(B_LAYOUTS) + [l for l in B.all_layouts(['ann', 'wrap']) if l not in B_LAYOUTS]
     if family == 'S':
         lays = list(B_LAYOUTS) + list(B.all_layouts(['eol', 'wrap', 'ann']))
         if tier == 'thorough':
@@ -308,6 +330,8 @@ def _family_models(family, tier):
         return models_P(tier)
     if family == 'S':
         return models_S()
+    if family == 'N':
+        return models_N()
     return models_B(tier)
 
 
@@ -355,6 +379,57 @@ def _work(chunk):
     return part.result()
 
 
+# ------------------------------------------------------ family D (text cases) ---
+def check_deprecated(text, info):
+    """An ordinary block that uses a deprecated tag-style annotation: MUST be parsed (not lost, no
+    exception), keep its name and the parameters / tags written in it, and survive the writer round trip.
+    Where the deprecated annotation and a following free text line end up is UNSPECIFIED."""
+    problems = []
+    block, recs, exc = B.parse(text)
+    evals = 1
+    if exc is not None:
+        return [('raise', 'parse_comment_block raised %s' % exc, {'text': text})], evals, None
+    if block is None:
+        return [('none', 'ordinary block with a deprecated tag form not recognised; diagnostics=%r' % (
+            [r['text'] for r in recs],), {'text': text})], evals, None
+    raw = B.abstract(block)
+    if raw['name'] != 'foo_bar':
+        problems.append(('tree', 'name: expected "foo_bar", observed %r' % raw['name'], {'text': text}))
+    pn = [p[0] for p in raw['params']]
+    tn = [t[0] for t in raw['tags']]
+    if pn != info['params'] or tn != info['tags']:
+        problems.append(('tree', 'parameters %r / tags %r, written %r / %r' % (pn, tn, info['params'], info['tags']),
+                         {'text': text, 'observed': raw}))
+    for indent in (True, False):
+        try:
+            w = B.write(block, indent)
+        except Exception as e:   # noqa
+            problems.append(('write-raise', 'writer raised %s: %s' % (type(e).__name__, e), {'text': text}))
+            continue
+        b2, recs2, exc2 = B.parse(w[:-1] if w.endswith('\n') else w)
+        evals += 1
+        v2 = B.abstract(b2)
+        if exc2 is not None or v2 != raw:
+            problems.append(('roundtrip', 'write(indent=%s) then parse gives a different block: %s' % (
+                indent, exc2 or _diff(raw, v2)), {'text': text, 'written': w, 'reparsed': v2, 'first': raw}))
+    return problems, evals, raw
+
+
+def _work_D(chunk):
+    part = Part()
+    for i, (text, info) in chunk:
+        problems, evals, got = check_deprecated(text, info)
+        part.add(states=1, transitions=1, evaluations=evals, traces_validated_against_impl=1, unspecified=1)
+        part.nontrivial('D:%d' % i)
+        if got is not None:
+            part.outcome(stable_hash(got)[:12])
+        for kind, desc, extra in problems:
+            part.violation('%s:D:%d' % (kind, i), desc, {'family': 'D', 'text': text, 'info': info})
+        if i % 60 == 0:
+            part.sample({'family': 'D', 'comment': text})
+    return part.result()
+
+
 # -------------------------------------------------------------- calibration ---
 def calibrate():
     cs = B.corpus()
@@ -398,7 +473,7 @@ def run(ctx):
     only = [f for f in os.environ.get('VERIF_FAMILIES', '').split(',') if f]
     if only:
         ctx.cap('family filter VERIF_FAMILIES=%s (debugging aid; default runs all families)' % ','.join(only))
-    for family in ('A', 'P', 'S', 'B'):
+    for family in ('A', 'P', 'S', 'N', 'B'):
         if only and family not in only:
             continue
         models = _family_models(family, tier)
@@ -419,6 +494,11 @@ def run(ctx):
             bounds=bounds)
     for r in pmap(_work, rotate(chunks, ctx.seed)):
         ctx.merge(r)
+    if not only or 'D' in only:
+        D = list(enumerate(B.deprecated_tag_blocks()))
+        ctx.cov['bounds']['family_D'] = {'texts': len(D)}
+        for r in pmap(_work_D, rotate([D[i::16] for i in range(16) if D[i::16]], ctx.seed)):
+            ctx.merge(r)
     ctx.assumptions += [
         'tokens inside one annotation are separated by single blanks; descriptions do not begin with "(" (statement)',
         'the view merges "" and missing descriptions/values, and empty/absent option containers',
@@ -432,6 +512,13 @@ def run(ctx):
 
 
 def replay(ctx, case):
+    if case.get('family') == 'D':
+        print(case['text'])
+        problems, evals, got = check_deprecated(case['text'], case['info'])
+        print('observed:', json.dumps(got))
+        for kind, desc, extra in problems:
+            print('%s: %s' % (kind, desc))
+        return not problems
     model, lay = case['model'], case['layout']
     print(B.render(model, lay))
     problems, evals, got = check_case(model, lay)
